@@ -474,8 +474,18 @@ let () =
     let body = unhexs (get kv "body" "-") in
     let announced = get kv "len" "0" in
     let st =
-      if announced <> string_of_int (List.length body) then "err"
+      if geti kv "archive" (-1) <> -1 then "returned"
+      else if announced <> string_of_int (List.length body) then "err"
       else if body = [] then "notexist"
       else if get kv "kind" "view" = "viewraw" then (match client_view_raw body with WOk _ -> "ok" | _ -> "err")
       else (match client_view body with WOk _ -> "ok" | _ -> "err") in
     obs "hremote %s alloc=ok" st)
+
+(* cligensize: the file generate leaves (no fill) is as long as its header says *)
+let () =
+  register "cligensize" (fun tk ->
+    let kv = kv_of tk in
+    let layout = layout_of_csv (get kv "layout" "") in
+    match new_header (getz kv "m" 2) (z_of_hex (get kv "x" "3f000000")) (List.map (fun (s, n) -> { ai_off = Z0; ai_step = s; ai_n = n }) layout) with
+    | None -> obs "cligensize err"
+    | Some h -> obs "cligensize ok size=%s" (dec_of_z (expected_file_size h)))
